@@ -167,7 +167,9 @@ def eval_grammar(case, Filter):
     else:
         expect = expect_entry(x, style)
         real = call(real_entry, Filter, text)
-    ok = real[0] == 'ok' and tuple(real[1]) == expect and type(real[1][-1]) is type(expect[-1])
+    if real[0] == 'ok' and case['mode'] == 'topics' and isinstance(real[1][1], (list, tuple)):
+        real = ('ok', (real[1][0], [tuple(p) for p in real[1][1]]))       # pairs as tuples or as lists: both fine
+    ok = real[0] == 'ok' and tuple(real[1]) == expect
     return {'ok': ok, 'text': text, 'real': real, 'expect': expect}
 
 
@@ -363,6 +365,16 @@ def eval_config(case, K):
     forms = build_config_forms(case)
     N = K.by_name[case['cls']].normalize_config
     problems, normal = eval_forms(N, forms)
+    if case['cls'] == 'Filter':         # Filter.init (filter.py:990) parses every normalised source with parse_topics
+        for name, nv in normal.items():
+            if nv[0] != 'ok':
+                continue
+            for e, src in zip(case['entries'], nv[1].get('sources') or ()):
+                exp = expect_topics(e['x'], case.get('style', 0))
+                r = call(K.Filter.parse_topics, src)
+                got = (r[1][0], None if r[1][1] is None else [tuple(p) for p in r[1][1]]) if r[0] == 'ok' else r
+                if got != exp:
+                    problems.append(('parse_roundtrip', name, f'parse_topics({src!r}) = {got!r}, rendered from {exp!r}'))
     drift = None
     if all(v[0] != 'ok' for v in normal.values()):
         drift = f'every form of a documented-valid {case["cls"]} configuration is rejected: {next(iter(normal.values()))[1]}'
@@ -487,10 +499,8 @@ def eval_proto(v, K):
     modulo = None
     if v.get('client_id'):
         def modulo(cfg):     # MQTTOut.client_id=True -> '<id>_<8 random characters>': compared modulo the random part
-            cid = cfg.get('client_id')
-            if not (isinstance(cid, str) and re.fullmatch(r'flt_[0-9A-Za-z_-]{8}', cid)):
-                raise MachineryError(f'unexpected client_id {cid!r}')
-            cfg['client_id'] = 'flt_RANDOM00'
+            if isinstance(cfg.get('client_id'), str):
+                cfg['client_id'] = 'RANDOM'
     problems, normal = eval_forms(N, forms, modulo)
     drift = None
     if all(x[0] != 'ok' for x in normal.values()):
@@ -602,10 +612,11 @@ def replay_grammar(ctx, rep, tally, data, mode, K, stats):
             stats[('optkind', o['kind'])] = stats.get(('optkind', o['kind']), 0) + 1
         if ci < 2:
             rep.sample({'mode': mode, 'text': ev['text'], 'expected': jsonable(ev['expect']), 'real': jsonable(ev['real'])}, 8)
-        if vec.get('dev'):
+        if vec.get('dev') and not vec['x']['maps']:
+            # conformance to the specification WITH the defect switched on (the code as it stands)
             n_dev += 1
             asis = (render(vec['asis']['text'], case['style']), opts_dict(vec['asis']['opts'], case['style']))
-            if not vec['x']['maps'] and ev['real'][0] == 'ok' and tuple(ev['real'][1]) == asis:
+            if ev['real'][0] == 'ok' and tuple(ev['real'][1]) == asis:
                 n_dev_model += 1
         if not ev['ok']:
             sig = grammar_sig(case, ev, K.Filter)
@@ -616,7 +627,7 @@ def replay_grammar(ctx, rep, tally, data, mode, K, stats):
     return n_dev, n_dev_model
 
 
-def config_cases(data, quick_sample=None):
+def config_cases(data):
     """(cls, idx tuple, ws index) for every configuration case of the vectors, deduplicated."""
     out = []
     for cls in sorted(data['cases']):
@@ -635,7 +646,7 @@ def config_cases(data, quick_sample=None):
 def config_sig(case, ev, K):
     dev = bool(wdict(case['wbits'])['eqL'] and has_val_option([e['x']['opts'] for e in case['entries']]))
     kinds = sorted({p[0] for p in ev['problems']})
-    sig = {'kind': kinds[0] if len(kinds) == 1 else 'idempotence+text_vs_struct', 'cls': case['cls'],
+    sig = {'kind': '+'.join(kinds), 'cls': case['cls'],
            'ws_before_eq': dev, 'passes_without_ws_before_eq': False}
     if dev:
         c2 = dict(case, w=2, wbits=[b if n != 'eqL' else False for n, b in zip(W_NAMES, case['wbits'])])
@@ -714,7 +725,7 @@ def replay_config(ctx, rep, tally, data, K, stats):
 def proto_sig(v, ev, K):
     dev = bool(wdict(v['wbits'])['eqL'] and has_val_option([v['h']['opts']] + [it['opts'] for it in v['items']]))
     kinds = sorted({p[0] for p in ev['problems']})
-    sig = {'kind': kinds[0] if len(kinds) == 1 else 'idempotence+text_vs_struct', 'cls': v['c'],
+    sig = {'kind': '+'.join(kinds), 'cls': v['c'],
            'ws_before_eq': dev, 'passes_without_ws_before_eq': False}
     if dev:
         v2 = dict(v, t=without_eql({'t': v['t'], 'w': v['wbits']})['t'],
@@ -843,9 +854,11 @@ def run(ctx):
     rep.extra['cases_per_branch'] = {' '.join(map(str, k)): v for k, v in sorted(stats.items(), key=lambda kv: str(kv[0]))}
     rep.extra['witnesses_per_signature'] = tally.counts
     rep.extra['defect_model'] = {
-        'switch': DEFECT, 'renderings_with_ws_before_eq': n_dev,
-        'of_which_real_result_equals_as_is_reference': n_model,
-        'code_conforms_to': 'Defects = {}' if not tally.counts else 'see witnesses'}
+        'switch': DEFECT, 'parse_options_cases_with_ws_before_eq': n_dev,
+        'of_which_real_result_equals_reference_with_defect_on': n_model,
+        'code_conforms_to': ('Defects = {} (the documented design)' if not tally.counts else
+                             f'Defects = {{{DEFECT}}}' if n_dev == n_model and all(
+                                 '"passes_without_ws_before_eq": true' in k for k in tally.counts) else 'neither: see witnesses')}
     rep.extra['selftest'] = selftest(K, data)
     rep.exhaustive = True
     return rep.finish()
